@@ -1,7 +1,341 @@
-import MitmVerif.Model.C19
+/-
+  C19 — property theorems (model: MitmVerif/Model/C19.lean, lemmas: MitmVerif/Lemmas/C19.lean).
+
+  * `allow_semantics`, `ignore_semantics`, `verdict_rule`   the verdict is the documented rule over the candidate names
+  * `candidates_cover_destinations`                          server address, Host header and SNI are candidates
+  * `host_header_agrees_with_spec`                           regex scanner = RFC 9112 field syntax on every well-formed head
+  * `host_header_prefix_stable`, `decision_prefix_stable`    an answer on a prefix is final (TCP)
+  * `decision_seg_independent_partial` / `_counterexample`   full statement `DecisionSegIndependent` is FALSE for the current
+                                                             code (finding F-C19b); proved outside that class
+  * `ignored_is_passthrough`                                 verdict ignore ⇒ single relay layer, no hooks, byte streams exact
+  * `not_excluded_is_intercepted`
+  * `tls_ignore_passthrough`                                 ClientTLSLayer `ignore_connection` branch
+-/
+import MitmVerif.Lemmas.C19
+set_option linter.unusedSimpArgs false
 namespace MitmVerif.Props.C19
 open MitmVerif MitmVerif.C19
 
-theorem placeholder : scan [] = .needMore := rfl
+/-! ## the verdict -/
+
+private theorem verdict_rule_bool {Pat : Type} (E : Env Pat) (c : Cfg Pat) (dc ds : Bytes) (hs : List Bytes)
+    (hc : candidates E c dc ds = .ok hs) :
+    ignoreConnection E c dc ds = .ok true ↔
+      (exempt c = false ∧ hs ≠ [] ∧
+        ((c.allowPats ≠ [] ∧ anyMatch E c.allowPats hs = false) ∨
+         (c.ignorePats ≠ [] ∧ anyMatch E c.ignorePats hs = true))) := by
+  have e1 : (c.allowPats ≠ []) ↔ c.allowPats.isEmpty = false := by cases c.allowPats <;> simp
+  have e2 : (c.ignorePats ≠ []) ↔ c.ignorePats.isEmpty = false := by cases c.ignorePats <;> simp
+  have e3 : (hs ≠ []) ↔ hs.isEmpty = false := by cases hs <;> simp
+  rw [e1, e2, e3]
+  unfold ignoreConnection
+  rw [hc]
+  unfold verdict
+  cases hA : anyMatch E c.allowPats hs <;> cases hI : anyMatch E c.ignorePats hs <;>
+    cases hi : c.ignorePats.isEmpty <;> cases ha : c.allowPats.isEmpty <;> cases hx : exempt c <;>
+    cases he : hs.isEmpty <;> simp_all
+
+/-- **verdict_rule** — whenever `_ignore_connection` answers, the answer is the documented rule over the candidate
+    host names: excluded iff there are candidates, the wireguard DNS exemption does not apply, and (allow_hosts is set
+    and none matches, or ignore_hosts is set and one matches). -/
+theorem verdict_rule {Pat : Type} (E : Env Pat) (c : Cfg Pat) (dc ds : Bytes) (hs : List Bytes)
+    (hc : candidates E c dc ds = .ok hs) :
+    ignoreConnection E c dc ds = .ok true ↔
+      (exempt c = false ∧ hs ≠ [] ∧
+        ((c.allowPats ≠ [] ∧ ¬ ∃ h ∈ hs, ∃ r ∈ c.allowPats, E.rx r h = true) ∨
+         (c.ignorePats ≠ [] ∧ ∃ h ∈ hs, ∃ r ∈ c.ignorePats, E.rx r h = true))) := by
+  have hany : ∀ pats : List Pat, anyMatch E pats hs = true ↔ ∃ h ∈ hs, ∃ r ∈ pats, E.rx r h = true := by
+    intro pats; simp [anyMatch, List.any_eq_true]
+  rw [verdict_rule_bool E c dc ds hs hc, ← hany c.allowPats, ← hany c.ignorePats]
+  simp
+
+/-- **allow_semantics** — with `allow_hosts` set (and no `ignore_hosts`), a connection with a known destination is passed
+    through exactly when NO candidate host name matches any allow pattern. -/
+theorem allow_semantics {Pat : Type} (E : Env Pat) (c : Cfg Pat) (dc ds : Bytes) (hs : List Bytes)
+    (hc : candidates E c dc ds = .ok hs) (hne : hs ≠ []) (hal : c.allowPats ≠ []) (hig : c.ignorePats = [])
+    (hex : exempt c = false) :
+    ignoreConnection E c dc ds = .ok true ↔ ¬ ∃ h ∈ hs, ∃ r ∈ c.allowPats, E.rx r h = true := by
+  rw [verdict_rule E c dc ds hs hc]
+  simp [hex, hne, hal, hig]
+
+/-- **ignore_semantics** — with only `ignore_hosts` set, a connection is passed through exactly when SOME candidate host
+    name matches some ignore pattern. -/
+theorem ignore_semantics {Pat : Type} (E : Env Pat) (c : Cfg Pat) (dc ds : Bytes) (hs : List Bytes)
+    (hc : candidates E c dc ds = .ok hs) (hal : c.allowPats = []) (hig : c.ignorePats ≠ [])
+    (hex : exempt c = false) :
+    ignoreConnection E c dc ds = .ok true ↔ ∃ h ∈ hs, ∃ r ∈ c.ignorePats, E.rx r h = true := by
+  rw [verdict_rule E c dc ds hs hc]
+  simp only [hex, hal, hig, ne_eq, not_true_eq_false, false_and, false_or, not_false_eq_true, true_and]
+  constructor
+  · exact fun h => h.2
+  · intro h
+    refine ⟨?_, h⟩
+    obtain ⟨x, hx, _⟩ := h
+    intro e; rw [e] at hx; cases hx
+
+/-- **candidates_cover_destinations** — every destination form the property names is among the candidates: the server
+    address, the Host header value (with the connection's port unless it carries one) and the ClientHello's SNI. -/
+theorem candidates_cover_destinations {Pat : Type} (E : Env Pat) (c : Cfg Pat) (dc ds : Bytes) (hs : List Bytes)
+    (h : Bytes) (p : Nat) (ha : c.address = some (h, p)) (hc : candidates E c dc ds = .ok hs) :
+    hostPort h p ∈ hs ∧
+    (∀ v, hostHeader c.tcp dc ds = .ok (some v) → withPort v p ∈ hs) ∧
+    (∀ s, clientHello E c.tcp (some p) dc = .ok (some s) → hostPort s p ∈ hs) ∧
+    (∀ a, c.peername = some a → hostPort a.1 a.2 ∈ hs) := by
+  unfold candidates at hc
+  simp only [ha] at hc
+  cases hh : hostHeader c.tcp dc ds with
+  | needMore => simp [hh] at hc
+  | ok hv =>
+    cases hch : clientHello E c.tcp (some p) dc with
+    | needMore => simp [hh, hch] at hc
+    | ok sni =>
+      simp only [hh, hch, Res.ok.injEq] at hc
+      subst hc
+      refine ⟨by simp, ?_, ?_, ?_⟩
+      · intro v hv'; cases hv'; simp [optList]
+      · intro s hs'; cases hs'; simp [optList]
+      · intro a hp; simp [hp, optList]
+
+/-! ## the Host header: implementation scanner = specification -/
+
+/-- **host_header_agrees_with_spec** — for EVERY request head in RFC 9112 field syntax (a request line the first regex
+    recognises, any number of field lines `name ":" OWS value OWS` with token names, SP/HTAB in any amount on both sides
+    of the value, the Host field at any position, in any letter case, possibly empty or repeated), followed by ANY bytes,
+    `_get_host_header` returns the value of the first Host field (none if absent or empty). -/
+theorem host_header_agrees_with_spec (reqLine : Bytes) (fs : List Field) (rest : Bytes)
+    (hrl : expected reqLine = true) (hcr : CR ∉ reqLine) (hw : ∀ f ∈ fs, f.WF) :
+    hostHeader true (renderHead reqLine fs ++ rest) [] = .ok (specHost fs) := by
+  have he : expected (renderHead reqLine fs ++ rest) = true := by
+    have := expected_append_true reqLine (CR :: LF :: (fs.flatMap Field.render ++ [CR, LF]) ++ rest) hrl
+    simpa [renderHead, List.append_assoc] using this
+  unfold hostHeader
+  simp only [Bool.not_true, List.isEmpty_nil, Bool.or_self, Bool.false_eq_true, if_false, he, if_true]
+  have hform : renderHead reqLine fs ++ rest
+      = reqLine ++ CR :: LF :: (fs.flatMap Field.render ++ CR :: LF :: rest) := by
+    simp [renderHead, List.append_assoc]
+  rw [hform, scan_skip reqLine _ hcr]
+  exact atLine_fields fs hw rest
+
+example : expected [0x47, 0x45, 0x54, 0x20, 0x2f, 0x20, 0x48, 0x54, 0x54, 0x50, 0x2f, 0x31, 0x2e, 0x31] = true := by decide
+/-- `hOsT:` TAB `a.b` SP after another field: the hypotheses are satisfiable and the result is the value -/
+example : hostHeader true (renderHead [0x47, 0x45, 0x54, 0x20, 0x2f, 0x20, 0x48, 0x54, 0x54, 0x50, 0x2f, 0x31]
+      [⟨[0x58], [0x20], [0x79], []⟩, ⟨[0x68, 0x4f, 0x73, 0x54], [0x09], [0x61, 0x2e, 0x62], [0x20]⟩]) []
+    = .ok (some [0x61, 0x2e, 0x62]) := by decide
+/-- the scanner is not constant: no Host field, no value -/
+example : hostHeader true (renderHead [0x47, 0x45, 0x54, 0x20, 0x2f, 0x20, 0x48, 0x54, 0x54, 0x50, 0x2f, 0x31]
+      [⟨[0x58], [0x20], [0x79], []⟩]) [] = .ok none := by decide
+
+/-- **host_header_prefix_stable** — an answer of `_get_host_header` on a prefix that does not end inside the request
+    line is its answer on every extension. -/
+theorem host_header_prefix_stable (tcp : Bool) (p q ds : Bytes) (r : Option Bytes) (hp : reqLinePending p = false)
+    (h : hostHeader tcp p ds = .ok r) : hostHeader tcp (p ++ q) ds = .ok r :=
+  hostHeader_append tcp p q ds r hp h
+
+/-- **decision_prefix_stable** — TCP: once `_ignore_connection` answers on at least three bytes that do not end inside
+    the request line, more bytes never change the verdict (Host header and ClientHello/SNI included). -/
+theorem decision_prefix_stable {Pat : Type} (E : Env Pat) (c : Cfg Pat) (p q ds : Bytes) (b : Bool)
+    (htcp : c.tcp = true) (h3 : 3 ≤ p.length) (hp : reqLinePending p = false)
+    (h : ignoreConnection E c p ds = .ok b) : ignoreConnection E c (p ++ q) ds = .ok b := by
+  apply ignoreConnection_append_tcp E c p q ds b htcp _ h
+  simp [earlyPrefix, hp]; omega
+
+/-- The full statement: for every segmentation of the first flight, the verdict taken at the first segment at which
+    `_ignore_connection` answers equals the verdict on the whole flight — the only exemption being the documented minimum
+    of three bytes needed to recognise TLS.  FALSE for the current code (F-C19b), see `_counterexample`. -/
+def DecisionSegIndependent : Prop :=
+  ∀ (E : Env Bytes) (c : Cfg Bytes) (ds : Bytes) (segs : List Bytes) (p : Bytes),
+    c.tcp = true → decidingPrefix (fun d => ignoreConnection E c d ds) [] segs = some p → 3 ≤ p.length →
+    askSegs (fun d => ignoreConnection E c d ds) [] segs = ignoreConnection E c segs.flatten ds
+
+/-- **decision_seg_independent (partial)** — the statement above for every pattern type, under the decidable guard that
+    the deciding prefix does not end inside the request line (`reqLinePending`): EVERY segmentation of the first flight
+    gives the verdict of the whole flight. -/
+theorem decision_seg_independent_partial {Pat : Type} (E : Env Pat) (c : Cfg Pat) (ds : Bytes) (segs : List Bytes)
+    (p : Bytes) (htcp : c.tcp = true)
+    (hd : decidingPrefix (fun d => ignoreConnection E c d ds) [] segs = some p)
+    (h3 : 3 ≤ p.length) (hguard : reqLinePending p = false) :
+    askSegs (fun d => ignoreConnection E c d ds) [] segs = ignoreConnection E c segs.flatten ds := by
+  obtain ⟨h1, q, h2⟩ := askSegs_eq (fun d => ignoreConnection E c d ds) [] segs p hd
+  simp only [List.nil_append] at h2
+  rw [h1, h2]
+  cases hv : ignoreConnection E c p ds with
+  | needMore =>
+    -- the deciding prefix is by definition not a needMore point
+    exfalso
+    clear h1 h2
+    generalize hacc : ([] : Bytes) = acc at hd
+    clear hacc
+    induction segs generalizing acc with
+    | nil => simp [decidingPrefix] at hd
+    | cons s ss ih =>
+      simp only [decidingPrefix] at hd
+      cases hf : ignoreConnection E c (acc ++ s) ds with
+      | needMore => simp only [hf] at hd; exact ih _ hd
+      | ok b => simp only [hf] at hd; cases hd; rw [hf] at hv; cases hv
+  | ok b => exact (decision_prefix_stable E c p q ds b htcp h3 hguard hv).symm
+
+private def cxEnv : Env Bytes := { rx := fun r h => r.isPrefixOf h, validHost := fun _ => false, quic := fun _ => .invalid }
+private def cxCfg : Cfg Bytes :=
+  { tcp := true, ignorePats := [[0x61]], allowPats := [], wireguard := false, peername := none,
+    address := some ([0x31], 80), clientSni := none }
+/-- `GET / HT` -/
+private def cxSeg1 : Bytes := [0x47, 0x45, 0x54, 0x20, 0x2f, 0x20, 0x48, 0x54]
+/-- `TP/1.1 CRLF Host:a CRLF CRLF` -/
+private def cxSeg2 : Bytes := [0x54, 0x50, 0x2f, 0x31, 0x2e, 0x31, 0x0d, 0x0a, 0x48, 0x6f, 0x73, 0x74, 0x3a, 0x61, 0x0d, 0x0a, 0x0d, 0x0a]
+
+/-- **decision_seg_independent (counterexample)** — F-C19b: `ignore_hosts = a`, destination `1:80`, first flight
+    `GET / HTTP/1.1 CRLF Host:a CRLF CRLF` cut after `GET / HT` (8 bytes ≥ 3): the first segment already gives the verdict
+    "not excluded" (no Host header seen), the whole flight is excluded. -/
+theorem decision_seg_independent_counterexample : ¬ DecisionSegIndependent := by
+  intro h
+  have := h cxEnv cxCfg [] [cxSeg1, cxSeg2] cxSeg1 rfl (by decide) (by decide)
+  revert this
+  decide
+
+/-! ## passthrough -/
+
+/-- **ignored_is_passthrough** — (a) whenever the verdict is "ignore" the instantiated stack is the single relay layer
+    (`TCPLayer`/`UDPLayer` with `ignore = not show_ignored_hosts`): no layer that terminates TLS/QUIC or parses HTTP/DNS;
+    (b) for EVERY event history (any segmentation of the first flight, data and closes from both sides at any time, the
+    server connection already open or opened after the decision, connect success or failure): while the relay is active
+    the bytes sent to each peer are exactly the concatenation of all bytes received from the other — including those
+    buffered before the decision and while connecting; before that nothing is sent and everything received is still
+    queued in order; the stack is the relay layer alone and, unless `show_ignored_hosts`, no hook ever runs. -/
+theorem ignored_is_passthrough {Pat : Type} (E : Env Pat) (c : NCfg Pat) (connected : Bool) (evs : List Ev) :
+    (∀ dc ds, ignoreConnection E c.toCfg dc ds = .ok true →
+        nextLayer E c dc ds = .ok [relayLayer c.tcp (!c.showIgnored)] ∧
+        (relayLayer c.tcp (!c.showIgnored)).terminates = false) ∧
+    (let s := run E c (Sess.init c.tcp connected) evs
+     (s.phase = .relay → ∀ b, sentTo b s.out = recvFrom b evs) ∧
+     ((s.phase = .undecided ∨ s.phase = .connecting) →
+        ∀ b, sentTo b s.out = [] ∧ recvFrom b s.queue = recvFrom b evs) ∧
+     ((s.phase = .connecting ∨ s.phase = .relay ∨ s.phase = .done ∨ s.phase = .failed) →
+        (∃ ig, (s.stack = [LK.tcp ig] ∨ s.stack = [LK.udp ig]) ∧ s.flow = !ig) ∧
+        (s.flow = false → hooks s.out = []))) := by
+  refine ⟨?_, ?_⟩
+  · intro dc ds h
+    refine ⟨by simp [nextLayer, h], ?_⟩
+    cases c.tcp <;> rfl
+  · have hI := run_inv E c (Sess.init c.tcp connected) [] evs (init_inv c.tcp connected)
+    simp only [List.nil_append] at hI
+    refine ⟨?_, ?_, ?_⟩
+    · intro hp
+      unfold MitmVerif.C19.Inv at hI; rw [hp] at hI
+      exact hI.2.2
+    · intro hp
+      rcases hp with hp | hp
+      · unfold MitmVerif.C19.Inv at hI; rw [hp] at hI
+        intro b
+        exact ⟨by rw [hI.1]; rfl, hI.2.2.1 b⟩
+      · unfold MitmVerif.C19.Inv at hI; rw [hp] at hI
+        exact hI.2.2
+    · intro hp
+      rcases hp with hp | hp | hp | hp <;> (unfold MitmVerif.C19.Inv at hI; rw [hp] at hI)
+      · exact ⟨hI.1, hI.2.1⟩
+      · exact ⟨hI.1, hI.2.1⟩
+      · exact ⟨hI.1, hI.2⟩
+      · exact ⟨hI.1, hI.2.1⟩
+
+/-- **not_excluded_is_intercepted** — a verdict "not excluded" never yields a passthrough layer: the instantiated stack is
+    non-empty and every layer in it makes the connection visible to addons (TLS/QUIC/HTTP/DNS layers, or a TCP/UDP layer
+    created with a flow). -/
+theorem not_excluded_is_intercepted {Pat : Type} (E : Env Pat) (c : NCfg Pat) (dc ds : Bytes)
+    (h : ignoreConnection E c.toCfg dc ds = .ok false) :
+    ∃ st, nextLayer E c dc ds = .ok st ∧ st ≠ [] ∧ ∀ l ∈ st, l.intercepts = true := by
+  refine ⟨intercept E c dc ds, by simp [nextLayer, h], ?_⟩
+  unfold intercept
+  cases c.top with
+  | reverse s =>
+    cases s <;> simp only [reverseStack] <;>
+      cases c.tcp <;> cases C13.startsLike false dc <;> cases C13.startsLike true dc <;> simp [LK.intercepts]
+  | httpProxy => simp only [explicitStack]; cases c.tcp <;> cases C13.startsLike false dc <;> simp [LK.intercepts]
+  | upstream => simp only [explicitStack]; cases c.tcp <;> cases C13.startsLike false dc <;> simp [LK.intercepts]
+  | other =>
+    simp only
+    repeat' split
+    all_goals simp [LK.intercepts]
+
+/-- and the relay phase of the connection model is only ever entered with an ignore-layer if the verdict was "ignore" -/
+theorem passthrough_only_if_excluded {Pat : Type} (E : Env Pat) (c : NCfg Pat) (dc ds : Bytes) (st : List LK)
+    (h : nextLayer E c dc ds = .ok st) (hig : LK.tcp true ∈ st ∨ LK.udp true ∈ st) :
+    ignoreConnection E c.toCfg dc ds = .ok true := by
+  cases hv : ignoreConnection E c.toCfg dc ds with
+  | needMore => simp [nextLayer, hv] at h
+  | ok b =>
+    cases b with
+    | true => rfl
+    | false =>
+      obtain ⟨st', h1, _, h3⟩ := not_excluded_is_intercepted E c dc ds hv
+      rw [h] at h1; cases h1
+      rcases hig with hig | hig
+      · have := h3 _ hig; simp [LK.intercepts] at this
+      · have := h3 _ hig; simp [LK.intercepts] at this
+
+/-! ## ClientTLSLayer, `tls_clienthello` answering `ignore_connection` -/
+
+private theorem tls_inv (dtls : Bool) (segs : List Bytes) (s : TlsSess) (fed : Bytes)
+    (hI : s.failed = false → (s.parsed = true → s.toServer.flatten = fed) ∧
+                              (s.parsed = false → s.buf = fed ∧ s.toServer = [])) :
+    let t := segs.foldl (tlsStep dtls) s
+    t.failed = false → (t.parsed = true → t.toServer.flatten = fed ++ segs.flatten) ∧
+                       (t.parsed = false → t.buf = fed ++ segs.flatten ∧ t.toServer = []) := by
+  induction segs generalizing s fed with
+  | nil => simpa using hI
+  | cons d ds ih =>
+    simp only [List.foldl_cons, List.flatten_cons]
+    rw [← List.append_assoc]
+    apply ih
+    unfold tlsStep
+    cases hf : s.failed with
+    | true => simp [hf]
+    | false =>
+      obtain ⟨h1, h2⟩ := hI hf
+      cases hp : s.parsed with
+      | true => simp [hf, hp, h1 hp]
+      | false =>
+        obtain ⟨hb, ht⟩ := h2 hp
+        simp only [hp, Bool.false_eq_true, if_false]
+        cases C13.parse dtls (s.buf ++ d) <;> simp [hf, hp, hb, ht]
+
+/-- **tls_ignore_passthrough** — ClientTLSLayer whose `tls_clienthello` hook sets `ignore_connection`: for EVERY
+    segmentation, once the ClientHello is complete everything received so far — the buffered handshake bytes first — has
+    been handed to the relay in order; until then everything is still in `recv_buffer`. -/
+theorem tls_ignore_passthrough (dtls : Bool) (segs : List Bytes) :
+    let t := segs.foldl (tlsStep dtls) TlsSess.init
+    t.failed = false → (t.parsed = true → t.toServer.flatten = segs.flatten) ∧
+                       (t.parsed = false → t.buf = segs.flatten ∧ t.toServer = []) := by
+  have := tls_inv dtls segs TlsSess.init [] (by simp [TlsSess.init])
+  simpa using this
+
+/-! ## non-vacuity: concrete instances of the hypotheses (all by evaluation) -/
+
+private def cxN (showI : Bool) : NCfg Bytes :=
+  { cxCfg with top := .other, showIgnored := showI, rawtcp := true, tcpHosts := [], udpHosts := [],
+               alpnSet := false, alpnHttp := false, quicV1 := false }
+/-- `GET / HTTP/1.1 CRLF Host:` -/
+private def exSeg1 : Bytes := [0x47, 0x45, 0x54, 0x20, 0x2f, 0x20, 0x48, 0x54, 0x54, 0x50, 0x2f, 0x31, 0x2e, 0x31, 0x0d, 0x0a, 0x48, 0x6f, 0x73, 0x74, 0x3a]
+/-- `a CRLF CRLF` -/
+private def exSeg2 : Bytes := [0x61, 0x0d, 0x0a, 0x0d, 0x0a]
+
+/-- a guarded segmentation: first segment needs more data, the second decides "ignore" = verdict of the whole flight -/
+example : decidingPrefix (fun d => ignoreConnection cxEnv cxCfg d []) [] [exSeg1, exSeg2] = some (exSeg1 ++ exSeg2)
+    ∧ reqLinePending (exSeg1 ++ exSeg2) = false
+    ∧ askSegs (fun d => ignoreConnection cxEnv cxCfg d []) [] [exSeg1, exSeg2] = .ok true := by decide
+/-- the verdict is not constant: the same flight to the same address without the Host header is not excluded -/
+example : ignoreConnection cxEnv cxCfg exSeg1 [] = .needMore ∧ ignoreConnection cxEnv cxCfg cxSeg1 [] = .ok false := by decide
+/-- a history that reaches the relay: two buffered segments, connect after the decision, data both ways, half-close -/
+example :
+    let s := run cxEnv (cxN false) (Sess.init true false)
+      [.dataC exSeg1, .dataC exSeg2, .connOk, .dataS [0x68, 0x69], .closeC, .dataS [0x21]]
+    s.phase = .relay ∧ s.stack = [LK.tcp true] ∧ sentTo true s.out = exSeg1 ++ exSeg2
+      ∧ sentTo false s.out = [0x68, 0x69, 0x21] ∧ hooks s.out = [] := by decide
+/-- with show_ignored_hosts the same history runs the tcp hooks -/
+example :
+    hooks (run cxEnv (cxN true) (Sess.init true true) [.dataC exSeg1, .dataC exSeg2]).out = [0, 1, 1] := by decide
+/-- not excluded: the same flight with another Host value is handed to the HTTP layer -/
+example : nextLayer cxEnv (cxN false) (exSeg1 ++ [0x62, 0x0d, 0x0a, 0x0d, 0x0a]) [] = .ok [LK.http .transparent] := by decide
+/-- the TLS branch keeps waiting on an incomplete record and fails on garbage -/
+example : (([[0x16, 0x03], [0x01]] : List Bytes).foldl (tlsStep false) TlsSess.init).buf = [0x16, 0x03, 0x01]
+    ∧ (([[0x47, 0x45, 0x54, 0x20, 0x2f]] : List Bytes).foldl (tlsStep false) TlsSess.init).failed = true := by decide
 
 end MitmVerif.Props.C19
